@@ -852,6 +852,12 @@ def gen_table(rng, family):
         fds.append({"n": nums[i], "kind": kind, "pos": gen_pos(rng), "flags": gen_flags(rng),
                     "tail": rng.choice(TAILS).hex(), "closes": gen_closes(rng, p_close), "denied": deny})
     case = {"family": family, "fds": fds, "gone_before": False, "dies_at": None, "mode": pick_mode(rng)}
+    if family == "exits" and n:
+        # the process exits (becomes a zombie) while the scan is at index k: the pid stays
+        k = rng.randrange(0, n + 1)
+        for d in fds[k:]:
+            d["closes"] = {"stage": "readlink", "errno": "ENOENT"}
+        case["zombie"] = True
     if family == "zombie":
         case["zombie"] = True
         if rng.random() < 0.3:
@@ -872,7 +878,7 @@ def gen_table(rng, family):
 
 
 TABLE_FAMILIES = ["mixed", "regular_only", "closing", "all_closing", "deleted", "dies", "gone", "small",
-                  "ambiguous", "empty", "mixed", "closing", "denied", "zombie", "denied"]
+                  "ambiguous", "empty", "mixed", "closing", "denied", "zombie", "denied", "exits"]
 
 
 def flag_sweep_tables(words, per=64):
@@ -1079,6 +1085,10 @@ def corpus_tables():
         {"family": "corpus-dir-denied", "fds": [{"n": 3, "kind": reg, "pos": 1, "flags": 2, "tail": "", "closes": None}],
          "gone_before": False, "dies_at": None, "dir_denied": True},
         {"family": "corpus-zombie", "fds": [], "gone_before": False, "dies_at": None, "zombie": True},
+        {"family": "corpus-exits", "zombie": True, "gone_before": False, "dies_at": None, "fds": [
+            {"n": 3, "kind": reg, "pos": 1, "flags": 2, "tail": "", "closes": None},
+            {"n": 4, "kind": reg, "pos": 1, "flags": 1, "tail": "", "closes": {"stage": "readlink", "errno": "ENOENT"}},
+            {"n": 5, "kind": reg, "pos": 1, "flags": 0, "tail": "", "closes": {"stage": "readlink", "errno": "ENOENT"}}]},
         {"family": "corpus-zombie-dir-denied", "fds": [], "gone_before": False, "dies_at": None, "zombie": True, "dir_denied": True},
         # isfile_strict on things that are not regular files: directory, FIFO, dangling, newline in the name
         {"family": "corpus-kinds", "fds": [
@@ -1126,7 +1136,10 @@ def low_flag_words():
 def correspond(ctx, res):
     impl = Impl(ctx)
     try:
-        res.rule = ("descriptor tables (0..64 descriptors of six kinds x closing stages x process states) and "
+        res.rule = ("descriptor tables (0..64 descriptors of six kinds x closing stages x refusals (EACCES at readlink / "
+                    "target stat / fdinfo / fd directory) x process states (running, zombie, exiting, dying, gone)), each "
+                    "run in a call mode (plain, oneshot, warm oneshot after a world change, as_dict, process_iter object, "
+                    "cached process_iter object, second call) and "
                     "/proc/pid/io files from clause-directed families (PRNG from VERIF_SEED), a malformed stream "
                     "(raw fd entries / fdinfo texts / io files), plus exhaustive sweeps of the flag word; "
                     "non-trivial = a table that is non-empty, an io file with a non-counter line or an error, "
